@@ -589,6 +589,11 @@ class Mp4Atom(ObjectWithFields):
             src.seek(pos)
         elif size == 1:
             size_ext = src.read(8)
+            if len(size_ext) != 8:
+                if options:
+                    options.log.debug(
+                        'Failed to read extended box size. pos=%d', position)
+                return None
             buf.append(size_ext)
             size = struct.unpack('>Q', size_ext)[0]
             if not size:
@@ -602,7 +607,12 @@ class Mp4Atom(ObjectWithFields):
             uuid = str(binascii.b2a_hex(uuid_data), 'ascii')
             atom_type = f'UUID({uuid})'
         else:
-            atom_type = str(atom_type, 'ascii')
+            try:
+                atom_type = str(atom_type, 'ascii')
+            except UnicodeDecodeError:
+                if options:
+                    options.log.debug('Invalid atom type. pos=%d', position)
+                return None
         return {
             "atom_type": atom_type,
             "position": position,
